@@ -32,6 +32,7 @@ def run_driver(exe, scenarios, threads, tag, timeout=300):
     results = {}
     pending = list(range(len(scenarios)))
     rounds = 0
+    hangs = 0
     env = dict(os.environ)
     env.update(adt.SAN_ENV)
     while pending and rounds < len(scenarios) + 10:
